@@ -1153,7 +1153,8 @@ fn run_child(dir: &std::path::Path, job: &Job) -> Outcome {
         match child.try_wait() {
             Ok(Some(s)) => break Some(s),
             Ok(None) => {
-                if start.elapsed().as_millis() as u64 > CHILD_DEADLINE_MS {
+                // CPU time of the child (a spinning implementation), wall clock only as a fallback
+                if crate::out::child_expired(child.id(), start, CHILD_DEADLINE_MS / 1000, 600) {
                     let _ = child.kill();
                     let _ = child.wait();
                     break None;
